@@ -896,7 +896,7 @@ Proof. vm_compute. reflexivity. Qed.
 
 (* the witness state is what the history of DESIGN §6 produces (both versions agree up to there) *)
 Example witness_state_reached :
-  run ConsistentHash witness_hashes [ORegister 0 Ingester Healthy 0; ORoute 2 [0]; ODrain 0] = witness_state.
+  run ConsistentHash witness_hashes [ORegister 0 Ingester Healthy 0 []; ORoute 2 [0]; ODrain 0] = witness_state.
 Proof. vm_compute. reflexivity. Qed.
 
 (* ------------------------------------------------------------------------ *)
@@ -905,7 +905,7 @@ Proof. vm_compute. reflexivity. Qed.
 Definition ex_hashes : hashes :=
   mkHashes (fun n => [Z.of_N n * 100 + 10; Z.of_N n * 100 + 50]%Z) (fun s => (Z.of_N s * 37)%Z).
 Definition ex_history : list op :=
-  [ORegister 0 Ingester Healthy 0; ORegister 1 Combined Healthy 10; ORoute 1 [0; 1]; ORoute 4 [1; 0]].
+  [ORegister 0 Ingester Healthy 0 []; ORegister 1 Combined Healthy 10 []; ORoute 1 [0; 1]; ORoute 4 [1; 0]].
 
 (* route returns Ok (route_eligible is not vacuous) *)
 Example ex_route_ok :
@@ -937,7 +937,7 @@ Proof. split; [vm_compute; discriminate|intros k; cbn; discriminate]. Qed.
    and the lookup (third case of moves_only_when_ineligible_or_rebalanced): the retry is taken
    once and the call returns the other node *)
 Example ex_move_under_interference :
-  let h := [ORegister 0 Ingester Healthy 0; ORegister 1 Ingester Healthy 0; ORoute 1 [0; 1]] in
+  let h := [ORegister 0 Ingester Healthy 0 []; ORegister 1 Ingester Healthy 0 []; ORoute 1 [0; 1]] in
   let st := run RoundRobin ex_hashes h in
   aget N.eqb 1 (st_asg st) = Some 0 /\ eligible (st_reg st) 0 = true /\
   step RoundRobin ex_hashes st (ORouteI 1 [0; 1] [[RStatus 0 Draining]])
